@@ -35,7 +35,14 @@ public:
 
   explicit ABSExpression(std::vector<Expression*>&& args) : BuiltinExpression(FUNC_ABS, std::move(args)) { }
 
-  const Type& type(Context& ctx) const override { return _args[0]->type(ctx); }
+  const Type& type(Context& ctx) const override
+  {
+    /* the absolute value of a complex is its modulus: a decimal */
+    const Type& t0 = _args[0]->type(ctx);
+    if (t0 == Type::IMAGINARY)
+      return Value::type_numeric;
+    return t0;
+  }
 
   Value& value(Context& ctx) const override;
 
